@@ -162,7 +162,7 @@ class Image(SpanToken):
     repr_attributes = ("src", "title")
 
     def __init__(self, match):
-        self.src = EscapeSequence.strip(match.group(2).strip())
+        self.src = EscapeSequence.strip(match.group(2))
         self.title = EscapeSequence.strip(match.group(3))
         self.dest_type = getattr(match, "dest_type", None)
         self.label = getattr(match, "label", None)
@@ -183,7 +183,7 @@ class Link(SpanToken):
     repr_attributes = ("target", "title")
 
     def __init__(self, match):
-        self.target = EscapeSequence.strip(match.group(2).strip())
+        self.target = EscapeSequence.strip(match.group(2))
         self.title = EscapeSequence.strip(match.group(3))
         self.dest_type = getattr(match, "dest_type", None)
         self.label = getattr(match, "label", None)
